@@ -135,8 +135,8 @@ where
 // `read_text()` yields the raw (still escaped) element content.
 fn read_name(reader: &mut NsReader<&[u8]>, start: &BytesStart<'_>) -> Result<Name, ReadError> {
     let raw = reader.read_text(start.to_end().name())?;
-    // names are tokens: surrounding whitespace (a pretty-printed reply) is not part of them
-    let name = unescape(raw.trim()).map_err(quick_xml::Error::from)?;
+    // a policy name is a string, not a token: whitespace is part of it
+    let name = unescape(&raw).map_err(quick_xml::Error::from)?;
     Ok(Name::new(name))
 }
 
